@@ -984,6 +984,8 @@ class Module(ABC):
         assert len(self.base.externals) == 0, "No stimuli allowed!"
         assert len(self.base.recordings) == 0, "No recordings allowed!"
         assert len(self.base.trainable_params) == 0, "No trainables allowed!"
+        # The tables of a view are a snapshot: bring them up to date with the module.
+        self._update_view()
 
         assert self.base._module_type != "network", "This is not allowed for networks."
         assert (
